@@ -55,9 +55,14 @@ func Migrate(path string) string {
 
 // Open returns a migrated SQLite datastore in a fresh scratch directory; cleanup closes it and removes the files.
 func Open(tag string) (storage.OpenFGADatastore, func()) {
+	return OpenWith(tag)
+}
+
+// OpenWith is Open with datastore options (e.g. sqlcommon.WithMaxTuplesPerWrite).
+func OpenWith(tag string, opts ...sqlcommon.DatastoreOption) (storage.OpenFGADatastore, func()) {
 	dir, rm := Scratch(tag)
 	uri := Migrate(filepath.Join(dir, "db.sqlite"))
-	cfg := sqlcommon.NewConfig()
+	cfg := sqlcommon.NewConfig(opts...)
 	cfg.Logger = logger.NewNoopLogger()
 	ds, err := sqlite.New(uri, cfg)
 	if err != nil {
